@@ -112,6 +112,13 @@ pub fn expand_macro( mut file: File, mac: Mac  ) -> (File, Lib) {
 
     let mut new_items_file: Vec<Vec<Item>> = Vec::new();
 
+    // `use` declarations are not order dependent, the import may follow the impl block
+    for item in &file.items {
+        if let Item::Use(item_use) = item {
+            let _ = use_macro.update(item_use.clone());
+        }
+    }
+
     for item  in &mut file.items {
         use_example.exclude_self_macro(item);
         match item {
